@@ -1,4 +1,4 @@
-(* Model/Cppm.v: the code machine of the C++ classes agrees with the documented
+(* Model/Cppm.v: the code machine of the C++ classes cpp_agrees with the documented
    machine on every documented history (C17) - or not, where the code as found
    departs from its documentation. *)
 From AsconV Require Import Model.Cppm Proofs.AeadP.
@@ -10,17 +10,17 @@ Local Open Scope nat_scope.
 Lemma zeros_len n : length (zeros n) = n.
 Proof. unfold zeros. apply repeat_length. Qed.
 
-Lemma resize_len old n : length (resize old n) = n.
-Proof. unfold resize. rewrite app_length, firstn_length, zeros_len. lia. Qed.
+Lemma resize_len old n : length (cpp_resize old n) = n.
+Proof. unfold cpp_resize. rewrite app_length, firstn_length, zeros_len. lia. Qed.
 
 Lemma set_at_full s d : length d = length s -> set_at s 0 d = d.
 Proof.
   intro H. rewrite <- (app_nil_r s). rewrite set_at_0_full by exact H. apply app_nil_r.
 Qed.
 
-Lemma rd_some b n : n <= length b -> rd (Some b) n = Ok (firstn n b).
+Lemma rd_some b n : n <= length b -> cpp_rd (Some b) n = CppOk (firstn n b).
 Proof.
-  intro H. unfold rd. destruct (length b <? n) eqn:E; [apply Nat.ltb_lt in E; lia|reflexivity].
+  intro H. unfold cpp_rd. destruct (length b <? n) eqn:E; [apply Nat.ltb_lt in E; lia|reflexivity].
 Qed.
 
 Lemma firstn_len_le {A} n (l : list A) : n <= length l -> length (firstn n l) = n.
@@ -29,9 +29,9 @@ Proof. intro H. rewrite firstn_length. lia. Qed.
 (* ---- nonce members ----------------------------------------------------- *)
 
 Local Opaque firstn.
-Lemma set_nonce_ok p len n : doc_set_nonce p len = Some n -> code_set_nonce p len = Ok n.
+Lemma set_nonce_ok p len n : cpp_doc_set_nonce p len = Some n -> cpp_code_set_nonce p len = CppOk n.
 Proof.
-  unfold doc_set_nonce, code_set_nonce. intro H.
+  unfold cpp_doc_set_nonce, cpp_code_set_nonce. intro H.
   destruct (len =? 0) eqn:E0.
   - apply Nat.eqb_eq in E0. subst len. injection H as <-. reflexivity.
   - apply Nat.eqb_neq in E0. destruct p as [b|]; [|discriminate].
@@ -43,7 +43,7 @@ Proof.
       destruct (Nat.min len (length b) <? 16) eqn:E; [apply Nat.ltb_lt in E; lia|].
       rewrite firstn_firstn. now rewrite Nat.min_l by exact E16.
     + apply Nat.leb_gt in E16. rewrite Nat.min_l in Em by lia.
-      rewrite rd_some by exact Em. cbn [obind].
+      rewrite rd_some by exact Em. cbn [cpp_obind].
       destruct (Nat.min len (length b) <? 16) eqn:E; [|apply Nat.ltb_ge in E; lia].
       now rewrite Nat.min_l by exact Em.
 Qed.
@@ -58,9 +58,9 @@ Proof.
     rewrite N.shiftr_shiftr. replace (8 + 8 * N.of_nat b)%N with (8 * N.of_nat (S b))%N by lia. reflexivity.
 Qed.
 
-Lemma set_counter_ok c : (c < 2 ^ 64)%N -> code_set_counter c = doc_set_counter c.
+Lemma set_counter_ok c : (c < 2 ^ 64)%N -> cpp_code_set_counter c = cpp_doc_set_counter c.
 Proof.
-  intro H. unfold code_set_counter, doc_set_counter.
+  intro H. unfold cpp_code_set_counter, cpp_doc_set_counter.
   change 16 with (8 + 8). rewrite be_encode_app.
   replace (N.shiftr c (8 * N.of_nat 8)) with 0%N; [reflexivity|].
   symmetry. change (8 * N.of_nat 8)%N with 64%N. apply N.shiftr_eq_0.
@@ -73,9 +73,9 @@ Variable R ckey : Type.
 Variable klen : nat.
 Variable c_encrypt : ckey -> bytes -> bytes -> bytes -> bytes * nat.
 Variable c_decrypt : ckey -> bytes -> bytes -> bytes -> dec_result.
-Variable K : keying R ckey.
+Variable K : cpp_keying R ckey.
 Variable has_saved ctor_has_len : bool.
-Variable key_of_doc : dkey -> ckey.
+Variable key_of_doc : cpp_dkey -> ckey.
 Variable keq : ckey -> ckey -> Prop.
 
 (* what is assumed of the C functions: they depend on the key object only
@@ -92,134 +92,134 @@ Record cfun_ok : Prop := {
 
 (* what the key-handling members must do *)
 Record keying_ok : Prop := {
-  ko_default : keq (kg_default K) (key_of_doc (DRaw (zeros klen)));
-  ko_ctor : forall junk r p len k, doc_ctor_key klen has_saved ctor_has_len p len = Some k ->
-            exists ck, kg_ctor K junk r p len = Ok ck /\ keq ck (key_of_doc k);
-  ko_set_true : forall ck r p len k, doc_set_key klen has_saved p len = Some (Some k) ->
-            exists ck', kg_set K ck r p len = Ok (true, ck') /\ keq ck' (key_of_doc k);
-  ko_set_false : forall ck r p len, doc_set_key klen has_saved p len = Some None ->
-            kg_set K ck r p len = Ok (false, ck);
+  ko_default : keq (kg_default K) (key_of_doc (CppRawKey (zeros klen)));
+  ko_ctor : forall junk r p len k, cpp_doc_ctor_key klen has_saved ctor_has_len p len = Some k ->
+            exists ck, kg_ctor K junk r p len = CppOk ck /\ keq ck (key_of_doc k);
+  ko_set_true : forall ck r p len k, cpp_doc_set_key klen has_saved p len = Some (Some k) ->
+            exists ck', kg_set K ck r p len = CppOk (true, ck') /\ keq ck' (key_of_doc k);
+  ko_set_false : forall ck r p len, cpp_doc_set_key klen has_saved p len = Some None ->
+            kg_set K ck r p len = CppOk (false, ck);
   ko_rand : forall r ck, keq (kg_randomize K r ck) ck
 }.
 
 Hypothesis CF : cfun_ok.
 Hypothesis KO : keying_ok.
 
-Notation agrees := (agrees ckey key_of_doc keq).
-Notation code_step := (code_step R ckey c_encrypt c_decrypt K).
-Notation doc_step := (doc_step R ckey klen c_encrypt c_decrypt has_saved key_of_doc).
+Notation cpp_agrees := (cpp_agrees ckey key_of_doc keq).
+Notation cpp_code_step := (cpp_code_step R ckey c_encrypt c_decrypt K).
+Notation cpp_doc_step := (cpp_doc_step R ckey klen c_encrypt c_decrypt has_saved key_of_doc).
 
-Lemma step_sim o d x d' r : agrees o d -> doc_step d x = Some (d', r) ->
-  exists o', code_step o x = Ok (o', r) /\ agrees o' d'.
+Lemma step_sim o d x d' r : cpp_agrees o d -> cpp_doc_step d x = Some (d', r) ->
+  exists o', cpp_code_step o x = CppOk (o', r) /\ cpp_agrees o' d'.
 Proof.
-  intros Ha Hd. pose proof Ha as [Hk Hn]. destruct x as [rr p len|p len|c|ad m|cold ad m|ad c|mold ad c|rr|]; cbn [Cppm.doc_step] in Hd; cbn [Cppm.code_step].
+  intros Ha Hd. pose proof Ha as [Hk Hn]. destruct x as [rr p len|p len|c|ad m|cold ad m|ad c|mold ad c|rr|]; cbn [Cppm.cpp_doc_step] in Hd; cbn [Cppm.cpp_code_step].
   - (* set_key *)
-    destruct (doc_set_key klen has_saved p len) as [[k|]|] eqn:E; [| |discriminate]; inversion Hd; subst; clear Hd.
-    + destruct (ko_set_true KO (o_key o) rr p len k E) as [ck' [H1 H2]]. rewrite H1. cbn.
-      eexists. split; [reflexivity|]. split; cbn [dk dn o_key o_nonce bump]; [intros k0 Hk0; inversion Hk0; subst; exact H2|exact Hn].
-    + rewrite (ko_set_false KO (o_key o) rr p len E). cbn.
-      eexists. split; [reflexivity|]. split; cbn [dk dn o_key o_nonce bump]; [exact Hk|exact Hn].
+    destruct (cpp_doc_set_key klen has_saved p len) as [[k|]|] eqn:E; [| |discriminate]; inversion Hd; subst; clear Hd.
+    + destruct (ko_set_true KO (cpo_key o) rr p len k E) as [ck' [H1 H2]]. rewrite H1. cbn.
+      eexists. split; [reflexivity|]. split; cbn [cpd_key cpd_nonce cpo_key cpo_nonce cpp_bump]; [intros k0 Hk0; inversion Hk0; subst; exact H2|exact Hn].
+    + rewrite (ko_set_false KO (cpo_key o) rr p len E). cbn.
+      eexists. split; [reflexivity|]. split; cbn [cpd_key cpd_nonce cpo_key cpo_nonce cpp_bump]; [exact Hk|exact Hn].
   - (* set_nonce *)
-    destruct (doc_set_nonce p len) as [n|] eqn:E; [|discriminate]. inversion Hd; subst; clear Hd.
+    destruct (cpp_doc_set_nonce p len) as [n|] eqn:E; [|discriminate]. inversion Hd; subst; clear Hd.
     rewrite (set_nonce_ok _ _ _ E). cbn. eexists. split; [reflexivity|].
-    split; cbn [dk dn o_key o_nonce bump]; [exact Hk|intros n0 H0; now inversion H0].
+    split; cbn [cpd_key cpd_nonce cpo_key cpo_nonce cpp_bump]; [exact Hk|intros n0 H0; now inversion H0].
   - (* set_counter *)
     destruct (c <? 2 ^ 64)%N eqn:E; [|discriminate]. apply N.ltb_lt in E. inversion Hd; subst; clear Hd.
-    eexists. split; [reflexivity|]. split; cbn [dk dn o_key o_nonce bump]; [exact Hk|intros n0 H0; injection H0 as <-; now apply set_counter_ok].
+    eexists. split; [reflexivity|]. split; cbn [cpd_key cpd_nonce cpo_key cpo_nonce cpp_bump]; [exact Hk|intros n0 H0; injection H0 as <-; now apply set_counter_ok].
   - (* encrypt *)
-    destruct (dk d) as [k|] eqn:Ek; [|discriminate]. destruct (dn d) as [n|] eqn:En; [|discriminate].
-    unfold do_encrypt. rewrite (Hn n eq_refl). rewrite (cf_enc CF _ _ (Hk k eq_refl) n ad m).
+    destruct (cpd_key d) as [k|] eqn:Ek; [|discriminate]. destruct (cpd_nonce d) as [n|] eqn:En; [|discriminate].
+    unfold cpp_do_encrypt. rewrite (Hn n eq_refl). rewrite (cf_enc CF _ _ (Hk k eq_refl) n ad m).
     destruct (c_encrypt (key_of_doc k) n ad m) as [cc clen] eqn:Ec. inversion Hd; subst; clear Hd.
-    eexists. split; [reflexivity|]. split; cbn [dk dn o_key o_nonce bump].
+    eexists. split; [reflexivity|]. split; cbn [cpd_key cpd_nonce cpo_key cpo_nonce cpp_bump].
     + exact Hk.
     + intros n0 H0. injection H0 as <-. now rewrite (Hn n eq_refl).
   - (* encrypt, byte_array *)
-    destruct (dk d) as [k|] eqn:Ek; [|discriminate]. destruct (dn d) as [n|] eqn:En; [|discriminate].
-    unfold ba_encrypt, do_encrypt. rewrite (Hn n eq_refl). rewrite (cf_enc CF _ _ (Hk k eq_refl) n ad m).
+    destruct (cpd_key d) as [k|] eqn:Ek; [|discriminate]. destruct (cpd_nonce d) as [n|] eqn:En; [|discriminate].
+    unfold cpp_ba_encrypt, cpp_do_encrypt. rewrite (Hn n eq_refl). rewrite (cf_enc CF _ _ (Hk k eq_refl) n ad m).
     pose proof (cf_enc_len CF (key_of_doc k) n ad m) as Hl.
     destruct (c_encrypt (key_of_doc k) n ad m) as [cc clen] eqn:Ec. cbn [fst] in Hl. inversion Hd; subst; clear Hd.
     rewrite set_at_full by (rewrite resize_len; exact Hl).
-    eexists. split; [reflexivity|]. split; cbn [dk dn o_key o_nonce bump].
+    eexists. split; [reflexivity|]. split; cbn [cpd_key cpd_nonce cpo_key cpo_nonce cpp_bump].
     + exact Hk.
     + intros n0 H0. injection H0 as <-. now rewrite (Hn n eq_refl).
   - (* decrypt *)
-    destruct (dk d) as [k|] eqn:Ek; [|discriminate]. destruct (dn d) as [n|] eqn:En; [|discriminate].
-    unfold do_decrypt. rewrite (Hn n eq_refl). rewrite (cf_dec CF _ _ (Hk k eq_refl) n ad c).
+    destruct (cpd_key d) as [k|] eqn:Ek; [|discriminate]. destruct (cpd_nonce d) as [n|] eqn:En; [|discriminate].
+    unfold cpp_do_decrypt. rewrite (Hn n eq_refl). rewrite (cf_dec CF _ _ (Hk k eq_refl) n ad c).
     destruct (c_decrypt (key_of_doc k) n ad c) as [|rz m] eqn:Ec.
     + inversion Hd; subst; clear Hd. eexists. split; [reflexivity|]. exact Ha.
     + destruct (0 <=? rz)%Z eqn:Er; inversion Hd; subst; clear Hd.
-      * eexists. split; [reflexivity|]. split; cbn [dk dn o_key o_nonce bump].
+      * eexists. split; [reflexivity|]. split; cbn [cpd_key cpd_nonce cpo_key cpo_nonce cpp_bump].
         -- exact Hk.
         -- intros n0 H0. injection H0 as <-. now rewrite (Hn n eq_refl).
       * eexists. split; [reflexivity|]. exact Ha.
   - (* decrypt, byte_array *)
-    destruct (dk d) as [k|] eqn:Ek; [|discriminate]. destruct (dn d) as [n|] eqn:En; [|discriminate].
-    unfold ba_decrypt.
+    destruct (cpd_key d) as [k|] eqn:Ek; [|discriminate]. destruct (cpd_nonce d) as [n|] eqn:En; [|discriminate].
+    unfold cpp_ba_decrypt.
     destruct (length c <? 16) eqn:Es.
     + apply Nat.ltb_lt in Es. rewrite (cf_dec_short CF (key_of_doc k) n ad c Es) in Hd.
       inversion Hd; subst; clear Hd. eexists. split; [reflexivity|]. exact Ha.
-    + unfold do_decrypt. rewrite (Hn n eq_refl). rewrite (cf_dec CF _ _ (Hk k eq_refl) n ad c).
+    + unfold cpp_do_decrypt. rewrite (Hn n eq_refl). rewrite (cf_dec CF _ _ (Hk k eq_refl) n ad c).
       destruct (c_decrypt (key_of_doc k) n ad c) as [|rz m] eqn:Ec.
       * inversion Hd; subst; clear Hd. cbn. eexists. split; [reflexivity|]. exact Ha.
       * pose proof (cf_dec_len CF _ _ _ _ _ _ Ec) as Hl.
         destruct (0 <=? rz)%Z eqn:Er; inversion Hd; subst; clear Hd.
         -- replace (Z.of_nat (length m) <? 0)%Z with false by (symmetry; apply Z.ltb_ge; lia).
            rewrite set_at_full by (rewrite resize_len; exact Hl).
-           eexists. split; [reflexivity|]. split; cbn [dk dn o_key o_nonce bump].
+           eexists. split; [reflexivity|]. split; cbn [cpd_key cpd_nonce cpo_key cpo_nonce cpp_bump].
            ++ exact Hk.
            ++ intros n0 H0. injection H0 as <-. now rewrite (Hn n eq_refl).
         -- cbn. eexists. split; [reflexivity|]. exact Ha.
   - (* randomize_key *)
-    inversion Hd; subst; clear Hd. eexists. split; [reflexivity|]. split; cbn [dk dn o_key o_nonce bump]; [|exact Hn].
-    intros k Hk0. exact (cf_trans CF _ _ _ (ko_rand KO rr (o_key o)) (Hk k Hk0)).
+    inversion Hd; subst; clear Hd. eexists. split; [reflexivity|]. split; cbn [cpd_key cpd_nonce cpo_key cpo_nonce cpp_bump]; [|exact Hn].
+    intros k Hk0. exact (cf_trans CF _ _ _ (ko_rand KO rr (cpo_key o)) (Hk k Hk0)).
   - (* clear *)
-    inversion Hd; subst; clear Hd. eexists. split; [reflexivity|]. split; cbn [dk dn o_key o_nonce bump]; intros ? H0; discriminate.
+    inversion Hd; subst; clear Hd. eexists. split; [reflexivity|]. split; cbn [cpd_key cpd_nonce cpo_key cpo_nonce cpp_bump]; intros ? H0; discriminate.
 Qed.
 
-Lemma steps_sim ops : forall o d d' rs, agrees o d ->
-  doc_steps R ckey klen c_encrypt c_decrypt has_saved key_of_doc d ops = Some (d', rs) ->
-  exists o', code_steps R ckey c_encrypt c_decrypt K o ops = Ok (o', rs) /\ agrees o' d'.
+Lemma steps_sim ops : forall o d d' rs, cpp_agrees o d ->
+  cpp_doc_steps R ckey klen c_encrypt c_decrypt has_saved key_of_doc d ops = Some (d', rs) ->
+  exists o', cpp_code_steps R ckey c_encrypt c_decrypt K o ops = CppOk (o', rs) /\ cpp_agrees o' d'.
 Proof.
-  induction ops as [|x ops IH]; intros o d d' rs Ha Hd; cbn [doc_steps] in Hd; cbn [code_steps].
+  induction ops as [|x ops IH]; intros o d d' rs Ha Hd; cbn [cpp_doc_steps] in Hd; cbn [cpp_code_steps].
   - inversion Hd; subst. eexists. split; [reflexivity|exact Ha].
-  - destruct (doc_step d x) as [[d1 r]|] eqn:E1; [|discriminate].
-    destruct (doc_steps R ckey klen c_encrypt c_decrypt has_saved key_of_doc d1 ops) as [[d2 rs2]|] eqn:E2; [|discriminate].
+  - destruct (cpp_doc_step d x) as [[d1 r]|] eqn:E1; [|discriminate].
+    destruct (cpp_doc_steps R ckey klen c_encrypt c_decrypt has_saved key_of_doc d1 ops) as [[d2 rs2]|] eqn:E2; [|discriminate].
     inversion Hd; subst; clear Hd.
-    destruct (step_sim o d x d1 r Ha E1) as [o1 [H1 A1]]. rewrite H1. cbn [obind].
-    destruct (IH o1 d1 d' rs2 A1 E2) as [o2 [H2 A2]]. rewrite H2. cbn [obind].
+    destruct (step_sim o d x d1 r Ha E1) as [o1 [H1 A1]]. rewrite H1. cbn [cpp_obind].
+    destruct (IH o1 d1 d' rs2 A1 E2) as [o2 [H2 A2]]. rewrite H2. cbn [cpp_obind].
     eexists. split; [reflexivity|exact A2].
 Qed.
 
 Theorem sim : C17_stmt R ckey klen c_encrypt c_decrypt K has_saved ctor_has_len key_of_doc keq.
 Proof.
-  intros c ops d rs Hd. unfold doc_run in Hd. unfold code_run.
-  destruct (doc_ctor R klen has_saved ctor_has_len c) as [d0|] eqn:Ec; [|discriminate].
-  assert (exists o0, code_ctor R ckey K c = Ok o0 /\ agrees o0 d0) as [o0 [H0 A0]].
+  intros c ops d rs Hd. unfold cpp_doc_run in Hd. unfold cpp_code_run.
+  destruct (cpp_doc_ctor R klen has_saved ctor_has_len c) as [d0|] eqn:Ec; [|discriminate].
+  assert (exists o0, cpp_code_ctor R ckey K c = CppOk o0 /\ cpp_agrees o0 d0) as [o0 [H0 A0]].
   { destruct c as [|junk r p len]; cbn in Ec |- *.
     - inversion Ec; subst. eexists. split; [reflexivity|]. split; cbn; intros ? H; inversion H; subst; [exact (ko_default KO)|reflexivity].
-    - destruct (doc_ctor_key klen has_saved ctor_has_len p len) as [k|] eqn:Ek; [|discriminate]. inversion Ec; subst.
+    - destruct (cpp_doc_ctor_key klen has_saved ctor_has_len p len) as [k|] eqn:Ek; [|discriminate]. inversion Ec; subst.
       destruct (ko_ctor KO junk r p len k Ek) as [ck [H1 H2]]. rewrite H1. cbn.
       eexists. split; [reflexivity|]. split; cbn; intros ? H; inversion H; subst; [exact H2|reflexivity]. }
-  rewrite H0. cbn [obind]. exact (steps_sim ops o0 d0 d rs A0 Hd).
+  rewrite H0. cbn [cpp_obind]. exact (steps_sim ops o0 d0 d rs A0 Hd).
 Qed.
 
 (* the statement in the words of the property: after any documented history
    the next packet is the C function under the documented key and nonce *)
 Corollary packet c ops d rs k n ad m :
-  doc_run R ckey klen c_encrypt c_decrypt has_saved ctor_has_len key_of_doc c ops = Some (d, rs) ->
-  dk d = Some k -> dn d = Some n ->
-  exists o, code_run R ckey c_encrypt c_decrypt K c ops = Ok (o, rs) /\
-            do_encrypt ckey c_encrypt o ad m =
-              (bump ckey o, (Z.of_nat (snd (c_encrypt (key_of_doc k) n ad m)), fst (c_encrypt (key_of_doc k) n ad m))) /\
-            o_nonce (bump ckey o) = increment_nonce n /\
-            do_decrypt ckey c_decrypt o ad m =
+  cpp_doc_run R ckey klen c_encrypt c_decrypt has_saved ctor_has_len key_of_doc c ops = Some (d, rs) ->
+  cpd_key d = Some k -> cpd_nonce d = Some n ->
+  exists o, cpp_code_run R ckey c_encrypt c_decrypt K c ops = CppOk (o, rs) /\
+            cpp_do_encrypt ckey c_encrypt o ad m =
+              (cpp_bump ckey o, (Z.of_nat (snd (c_encrypt (key_of_doc k) n ad m)), fst (c_encrypt (key_of_doc k) n ad m))) /\
+            cpo_nonce (cpp_bump ckey o) = increment_nonce n /\
+            cpp_do_decrypt ckey c_decrypt o ad m =
               match c_decrypt (key_of_doc k) n ad m with
               | DecShort => (o, ((-1)%Z, None))
-              | DecDone r p => if (0 <=? r)%Z then (bump ckey o, (Z.of_nat (length p), Some p)) else (o, ((-1)%Z, Some p))
+              | DecDone r p => if (0 <=? r)%Z then (cpp_bump ckey o, (Z.of_nat (length p), Some p)) else (o, ((-1)%Z, Some p))
               end.
 Proof.
   intros Hd Hk Hn. destruct (sim c ops d rs Hd) as [o [Hr [Ak An]]].
-  exists o. split; [exact Hr|]. unfold do_encrypt, do_decrypt.
+  exists o. split; [exact Hr|]. unfold cpp_do_encrypt, cpp_do_decrypt.
   rewrite (An n Hn). rewrite (cf_enc CF _ _ (Ak k Hk) n ad m). rewrite (cf_dec CF _ _ (Ak k Hk) n ad m).
   destruct (c_encrypt (key_of_doc k) n ad m) as [cc clen]. cbn [fst snd].
   split; [reflexivity|]. split; [cbn; now rewrite (An n Hn)|reflexivity].
@@ -228,24 +228,24 @@ Qed.
 (* byte_array overloads: the vector holds exactly the bytes the pointer
    overload writes; a failed decrypt leaves it empty and the nonce unchanged *)
 Lemma ba_encrypt_eq o cold ad m :
-  ba_encrypt ckey c_encrypt o cold ad m =
-  (fst (do_encrypt ckey c_encrypt o ad m), snd (snd (do_encrypt ckey c_encrypt o ad m))).
+  cpp_ba_encrypt ckey c_encrypt o cold ad m =
+  (fst (cpp_do_encrypt ckey c_encrypt o ad m), snd (snd (cpp_do_encrypt ckey c_encrypt o ad m))).
 Proof.
-  unfold ba_encrypt, do_encrypt. pose proof (cf_enc_len CF (o_key o) (o_nonce o) ad m) as Hl.
-  destruct (c_encrypt (o_key o) (o_nonce o) ad m) as [cc clen]. cbn [fst snd] in *.
+  unfold cpp_ba_encrypt, cpp_do_encrypt. pose proof (cf_enc_len CF (cpo_key o) (cpo_nonce o) ad m) as Hl.
+  destruct (c_encrypt (cpo_key o) (cpo_nonce o) ad m) as [cc clen]. cbn [fst snd] in *.
   now rewrite set_at_full by (rewrite resize_len; exact Hl).
 Qed.
 
 Lemma ba_decrypt_eq o mold ad c :
-  ba_decrypt ckey c_decrypt o mold ad c =
-  match do_decrypt ckey c_decrypt o ad c with
+  cpp_ba_decrypt ckey c_decrypt o mold ad c =
+  match cpp_do_decrypt ckey c_decrypt o ad c with
   | (o', (r, Some m)) => if (r <? 0)%Z then (o, (false, [])) else (o', (true, m))
   | (o', (r, None)) => (o, (false, []))
   end.
 Proof.
-  unfold ba_decrypt, do_decrypt. destruct (length c <? 16) eqn:Es.
+  unfold cpp_ba_decrypt, cpp_do_decrypt. destruct (length c <? 16) eqn:Es.
   - apply Nat.ltb_lt in Es. now rewrite (cf_dec_short CF _ _ _ _ Es).
-  - destruct (c_decrypt (o_key o) (o_nonce o) ad c) as [|rz m] eqn:Ec; [reflexivity|].
+  - destruct (c_decrypt (cpo_key o) (cpo_nonce o) ad c) as [|rz m] eqn:Ec; [reflexivity|].
     pose proof (cf_dec_len CF _ _ _ _ _ _ Ec) as Hl.
     destruct (0 <=? rz)%Z; [|reflexivity].
     replace (Z.of_nat (length m) <? 0)%Z with false by (symmetry; apply Z.ltb_ge; lia).
@@ -255,12 +255,12 @@ End CipherP.
 
 (* ---- the families ------------------------------------------------------ *)
 
-Lemma doc_set_key_true klen hs p len k : doc_set_key klen hs p len = Some (Some k) ->
-  (len = 0 /\ k = DRaw (zeros klen)) \/
-  (len <> 0 /\ len = klen /\ exists b, p = Some b /\ klen <= length b /\ k = DRaw (firstn klen b)) \/
-  (len <> 0 /\ len <> klen /\ len = 80 /\ hs = true /\ exists b, p = Some b /\ 80 <= length b /\ k = DSaved (firstn 80 b)).
+Lemma doc_set_key_true klen hs p len k : cpp_doc_set_key klen hs p len = Some (Some k) ->
+  (len = 0 /\ k = CppRawKey (zeros klen)) \/
+  (len <> 0 /\ len = klen /\ exists b, p = Some b /\ klen <= length b /\ k = CppRawKey (firstn klen b)) \/
+  (len <> 0 /\ len <> klen /\ len = 80 /\ hs = true /\ exists b, p = Some b /\ 80 <= length b /\ k = CppSavedKey (firstn 80 b)).
 Proof.
-  unfold doc_set_key. destruct (len =? 0) eqn:E0.
+  unfold cpp_doc_set_key. destruct (len =? 0) eqn:E0.
   - apply Nat.eqb_eq in E0. intro H. inversion H. now left.
   - apply Nat.eqb_neq in E0. destruct ((len =? klen) || ((len =? 80) && hs)) eqn:E; [|discriminate].
     destruct p as [b|]; [|discriminate]. destruct (length b <? len) eqn:El; [discriminate|]. apply Nat.ltb_ge in El.
@@ -270,10 +270,10 @@ Proof.
       right; right. repeat split; try assumption. exists b. subst. repeat split; lia || reflexivity.
 Qed.
 
-Lemma doc_set_key_false klen hs p len : doc_set_key klen hs p len = Some None ->
+Lemma doc_set_key_false klen hs p len : cpp_doc_set_key klen hs p len = Some None ->
   len <> 0 /\ ((len = klen \/ (len = 80 /\ hs = true)) /\ p = None \/ (len <> klen /\ (len <> 80 \/ hs = false))).
 Proof.
-  unfold doc_set_key. destruct (len =? 0) eqn:E0; [discriminate|]. apply Nat.eqb_neq in E0.
+  unfold cpp_doc_set_key. destruct (len =? 0) eqn:E0; [discriminate|]. apply Nat.eqb_neq in E0.
   destruct (len =? klen) eqn:Ek; cbn [orb].
   - apply Nat.eqb_eq in Ek. destruct p as [b|]; [destruct (length b <? len); discriminate|]. intros _. split; [exact E0|]. left. split; [now left|reflexivity].
   - apply Nat.eqb_neq in Ek. destruct (len =? 80) eqn:E8; cbn [andb].
@@ -285,23 +285,23 @@ Qed.
 
 (* plain and SIV classes whose key constructor copies the whole key *)
 Lemma keying_plain_ok klen : 0 < klen -> klen <> 80 ->
-  keying_ok unit bytes klen (keying_plain klen klen) false false raw_key_of_doc eq.
+  keying_ok unit bytes klen (cpp_keying_plain klen klen) false false cpp_raw_key_of_doc eq.
 Proof.
   intros Hpos H80. constructor.
   - reflexivity.
-  - intros junk r p len k H. unfold doc_ctor_key in H. cbn [keying_plain kg_ctor].
+  - intros junk r p len k H. unfold cpp_doc_ctor_key in H. cbn [cpp_keying_plain kg_ctor].
     destruct p as [b|].
     + destruct (length b <? klen) eqn:El; [discriminate|]. apply Nat.ltb_ge in El. inversion H; subst.
-      rewrite rd_some by exact El. cbn [obind]. eexists. split; [reflexivity|]. cbn.
+      rewrite rd_some by exact El. cbn [cpp_obind]. eexists. split; [reflexivity|]. cbn.
       apply set_at_full. rewrite resize_len. now apply firstn_len_le.
     + inversion H; subst. eexists. split; [reflexivity|]. cbn. apply set_at_full. now rewrite resize_len, zeros_len.
-  - intros ck r p len k H. apply doc_set_key_true in H. cbn [keying_plain kg_set].
+  - intros ck r p len k H. apply doc_set_key_true in H. cbn [cpp_keying_plain kg_set].
     destruct H as [[H0 Hk]|[[H0 [Hl [b [Hp [Hb Hk]]]]]|[_ [_ [_ [Hs _]]]]]]; [| |discriminate].
     + subst. destruct klen; [lia|]. cbn [Nat.eqb andb]. eexists. split; reflexivity.
-    + subst len p k. rewrite Nat.eqb_refl. cbn [is_some andb]. rewrite rd_some by exact Hb. cbn. eexists. split; reflexivity.
-  - intros ck r p len H. apply doc_set_key_false in H. cbn [keying_plain kg_set].
+    + subst len p k. rewrite Nat.eqb_refl. cbn [cpp_is_some andb]. rewrite rd_some by exact Hb. cbn. eexists. split; reflexivity.
+  - intros ck r p len H. apply doc_set_key_false in H. cbn [cpp_keying_plain kg_set].
     destruct H as [H0 [[[Hl|[_ Hs]] Hp]|[Hl _]]]; [| discriminate |].
-    + subst. rewrite Nat.eqb_refl. cbn [is_some andb]. apply Nat.eqb_neq in H0. now rewrite H0.
+    + subst. rewrite Nat.eqb_refl. cbn [cpp_is_some andb]. apply Nat.eqb_neq in H0. now rewrite H0.
     + apply Nat.eqb_neq in Hl, H0. now rewrite Hl, H0.
   - reflexivity.
 Qed.
@@ -309,29 +309,29 @@ Qed.
 (* siv80pq as found: the key constructor installs 16 of the 20 key bytes *)
 Definition k20 : bytes := map N.of_nat (seq 1 20).
 Lemma siv80pq_asfound_refuted c_encrypt c_decrypt :
-  ~ C17_stmt unit bytes 20 c_encrypt c_decrypt (keying_plain 20 (siv80pq_ncopy AsFound)) false false raw_key_of_doc eq.
+  ~ C17_stmt unit bytes 20 c_encrypt c_decrypt (cpp_keying_plain 20 (cpp_siv80pq_ncopy CodeAsFound)) false false cpp_raw_key_of_doc eq.
 Proof.
   intro H.
-  destruct (H (CKey (repeat 255%N 36) tt (Some k20) 0) [] {| dk := Some (DRaw k20); dn := Some (zeros 16) |} [] eq_refl)
+  destruct (H (CppKeyCtor (repeat 255%N 36) tt (Some k20) 0) [] {| cpd_key := Some (CppRawKey k20); cpd_nonce := Some (zeros 16) |} [] eq_refl)
     as [o [Hr [Hk _]]].
   vm_compute in Hr. inversion Hr; subst; clear Hr. specialize (Hk _ eq_refl). vm_compute in Hk. discriminate.
 Qed.
 (* ... and with a null key: 16 of 20 bytes are zeroed *)
 Lemma siv80pq_asfound_refuted_null c_encrypt c_decrypt :
-  ~ C17_stmt unit bytes 20 c_encrypt c_decrypt (keying_plain 20 (siv80pq_ncopy AsFound)) false false raw_key_of_doc eq.
+  ~ C17_stmt unit bytes 20 c_encrypt c_decrypt (cpp_keying_plain 20 (cpp_siv80pq_ncopy CodeAsFound)) false false cpp_raw_key_of_doc eq.
 Proof.
   intro H.
-  destruct (H (CKey (repeat 255%N 36) tt None 0) [] {| dk := Some (DRaw (zeros 20)); dn := Some (zeros 16) |} [] eq_refl)
+  destruct (H (CppKeyCtor (repeat 255%N 36) tt None 0) [] {| cpd_key := Some (CppRawKey (zeros 20)); cpd_nonce := Some (zeros 16) |} [] eq_refl)
     as [o [Hr [Hk _]]].
   vm_compute in Hr. inversion Hr; subst; clear Hr. specialize (Hk _ eq_refl). vm_compute in Hk. discriminate.
 Qed.
 
 Lemma siv80pq_status v c_encrypt c_decrypt :
   match v with
-  | Fixed => keying_ok unit bytes 20 (keying_plain 20 (siv80pq_ncopy v)) false false raw_key_of_doc eq
-  | AsFound => ~ C17_stmt unit bytes 20 c_encrypt c_decrypt (keying_plain 20 (siv80pq_ncopy v)) false false raw_key_of_doc eq
+  | CodeFixed => keying_ok unit bytes 20 (cpp_keying_plain 20 (cpp_siv80pq_ncopy v)) false false cpp_raw_key_of_doc eq
+  | CodeAsFound => ~ C17_stmt unit bytes 20 c_encrypt c_decrypt (cpp_keying_plain 20 (cpp_siv80pq_ncopy v)) false false cpp_raw_key_of_doc eq
   end.
-Proof. destruct v; [apply siv80pq_asfound_refuted|]. cbn [siv80pq_ncopy]. apply keying_plain_ok; [apply Nat.lt_0_succ|discriminate]. Qed.
+Proof. destruct v; [apply siv80pq_asfound_refuted|]. cbn [cpp_siv80pq_ncopy]. apply keying_plain_ok; [apply Nat.lt_0_succ|discriminate]. Qed.
 
 (* masked classes *)
 Section MaskedP.
@@ -348,30 +348,30 @@ Record mkey_ok (klen : nat) : Prop := {
   mv_rand : forall r m, mk_value (mk_randomize r m) = mk_value m
 }.
 Definition mkeq (a b : mkey) : Prop := mk_value a = mk_value b.
-Definition masked_key_of_doc (d : dkey) : mkey := mk_init r0 (raw_key_of_doc d).
+Definition masked_key_of_doc (d : cpp_dkey) : mkey := mk_init r0 (cpp_raw_key_of_doc d).
 
 Lemma keying_masked_ok klen : 0 < klen -> klen <> 80 -> mkey_ok klen ->
-  keying_ok R mkey klen (keying_masked R mkey mk_init mk_zero_image mk_randomize klen) false false masked_key_of_doc mkeq.
+  keying_ok R mkey klen (cpp_keying_masked R mkey mk_init mk_zero_image mk_randomize klen) false false masked_key_of_doc mkeq.
 Proof.
   intros Hpos H80 M. constructor.
   - unfold mkeq, masked_key_of_doc. cbn. rewrite (mv_zero klen M). symmetry. apply (mv_init klen M). apply zeros_len.
-  - intros junk r p len k H. unfold doc_ctor_key in H. cbn [keying_masked kg_ctor].
+  - intros junk r p len k H. unfold cpp_doc_ctor_key in H. cbn [cpp_keying_masked kg_ctor].
     destruct p as [b|].
     + destruct (length b <? klen) eqn:El; [discriminate|]. apply Nat.ltb_ge in El. inversion H; subst.
-      rewrite rd_some by exact El. cbn [obind]. eexists. split; [reflexivity|]. unfold mkeq, masked_key_of_doc. cbn.
+      rewrite rd_some by exact El. cbn [cpp_obind]. eexists. split; [reflexivity|]. unfold mkeq, masked_key_of_doc. cbn.
       now rewrite !(mv_init klen M) by (now apply firstn_len_le).
     + inversion H; subst. eexists. split; [reflexivity|]. unfold mkeq, masked_key_of_doc. cbn.
       now rewrite !(mv_init klen M) by apply zeros_len.
-  - intros ck r p len k H. apply doc_set_key_true in H. cbn [keying_masked kg_set].
+  - intros ck r p len k H. apply doc_set_key_true in H. cbn [cpp_keying_masked kg_set].
     destruct H as [[H0 Hk]|[[H0 [Hl [b [Hp [Hb Hk]]]]]|[_ [_ [_ [Hs _]]]]]]; [| |discriminate].
     + subst. assert (E : (0 =? klen) = false) by (apply Nat.eqb_neq; lia). rewrite E. cbn [Nat.eqb andb].
       eexists. split; [reflexivity|].
-      unfold mkeq, masked_key_of_doc. cbn [raw_key_of_doc]. now rewrite !(mv_init _ M) by apply zeros_len.
-    + subst len p k. rewrite Nat.eqb_refl. cbn [is_some andb]. rewrite rd_some by exact Hb. cbn. eexists. split; [reflexivity|].
+      unfold mkeq, masked_key_of_doc. cbn [cpp_raw_key_of_doc]. now rewrite !(mv_init _ M) by apply zeros_len.
+    + subst len p k. rewrite Nat.eqb_refl. cbn [cpp_is_some andb]. rewrite rd_some by exact Hb. cbn. eexists. split; [reflexivity|].
       unfold mkeq, masked_key_of_doc. cbn. now rewrite !(mv_init klen M) by (now apply firstn_len_le).
-  - intros ck r p len H. apply doc_set_key_false in H. cbn [keying_masked kg_set].
+  - intros ck r p len H. apply doc_set_key_false in H. cbn [cpp_keying_masked kg_set].
     destruct H as [H0 [[[Hl|[_ Hs]] Hp]|[Hl _]]]; [| discriminate |].
-    + subst. rewrite Nat.eqb_refl. cbn [is_some andb]. apply Nat.eqb_neq in H0. now rewrite H0.
+    + subst. rewrite Nat.eqb_refl. cbn [cpp_is_some andb]. apply Nat.eqb_neq in H0. now rewrite H0.
     + apply Nat.eqb_neq in Hl, H0. now rewrite Hl, H0.
   - intros r ck. unfold mkeq. cbn. apply (mv_rand klen M).
 Qed.
@@ -383,11 +383,11 @@ Variable pk : Type.
 Variable isap_init isap_load : bytes -> pk.
 
 Lemma keying_isap_fixed_ok klen : 0 < klen -> klen <> 80 ->
-  keying_ok unit pk klen (keying_isap pk isap_init isap_load Fixed klen) true true (isap_key_of_doc pk isap_init isap_load) eq.
+  keying_ok unit pk klen (cpp_keying_isap pk isap_init isap_load CodeFixed klen) true true (cpp_isap_key_of_doc pk isap_init isap_load) eq.
 Proof.
   intros Hpos H80. constructor.
   - reflexivity.
-  - intros junk r p len k H. unfold doc_ctor_key in H. cbn [keying_isap kg_ctor].
+  - intros junk r p len k H. unfold cpp_doc_ctor_key in H. cbn [cpp_keying_isap kg_ctor].
     destruct (len =? 0) eqn:E0.
     + apply Nat.eqb_eq in E0. subst len. inversion H; subst.
       destruct klen as [|k']; [lia|]. cbn [Nat.eqb]. eexists. split; reflexivity.
@@ -397,47 +397,47 @@ Proof.
       * destruct (len =? 80) eqn:E8; cbn [andb] in H; [|discriminate].
         destruct (length b <? 80) eqn:El; [discriminate|]. apply Nat.ltb_ge in El. inversion H; subst.
         rewrite rd_some by exact El. eexists. split; reflexivity.
-  - intros ck r p len k H. apply doc_set_key_true in H. cbn [keying_isap kg_set].
+  - intros ck r p len k H. apply doc_set_key_true in H. cbn [cpp_keying_isap kg_set].
     destruct H as [[H0 Hk]|[[H0 [Hl [b [Hp [Hb Hk]]]]]|[H0 [Hl [H8 [_ [b [Hp [Hb Hk]]]]]]]]].
-    + subst. assert (E : (0 =? klen) = false) by (apply Nat.eqb_neq; lia). rewrite E. cbn [Nat.eqb andb isap_zero_src].
-      rewrite rd_some by (rewrite zeros_len; lia). cbn [obind].
+    + subst. assert (E : (0 =? klen) = false) by (apply Nat.eqb_neq; lia). rewrite E. cbn [Nat.eqb andb cpp_isap_zero_src].
+      rewrite rd_some by (rewrite zeros_len; lia). cbn [cpp_obind].
       assert (F : firstn klen (zeros klen) = zeros klen) by (rewrite <- (zeros_len klen) at 1; apply firstn_all).
       rewrite F. eexists. split; reflexivity.
-    + subst len p k. rewrite Nat.eqb_refl. cbn [is_some andb]. rewrite rd_some by exact Hb. cbn. eexists. split; reflexivity.
-    + subst len p k. apply Nat.eqb_neq in Hl. rewrite Hl. cbn [is_some andb Nat.eqb].
+    + subst len p k. rewrite Nat.eqb_refl. cbn [cpp_is_some andb]. rewrite rd_some by exact Hb. cbn. eexists. split; reflexivity.
+    + subst len p k. apply Nat.eqb_neq in Hl. rewrite Hl. cbn [cpp_is_some andb Nat.eqb].
       rewrite rd_some by exact Hb. cbn. eexists. split; reflexivity.
-  - intros ck r p len H. apply doc_set_key_false in H. cbn [keying_isap kg_set].
+  - intros ck r p len H. apply doc_set_key_false in H. cbn [cpp_keying_isap kg_set].
     destruct H as [H0 [[[Hl|[Hl _]] Hp]|[Hl [H8|Hs]]]]; [| | |discriminate].
-    + subst. rewrite Nat.eqb_refl. cbn [is_some andb]. rewrite andb_false_r. apply Nat.eqb_neq in H0. now rewrite H0.
-    + subst. cbn [is_some]. rewrite !andb_false_r. reflexivity.
+    + subst. rewrite Nat.eqb_refl. cbn [cpp_is_some andb]. rewrite andb_false_r. apply Nat.eqb_neq in H0. now rewrite H0.
+    + subst. cbn [cpp_is_some]. rewrite !andb_false_r. reflexivity.
     + apply Nat.eqb_neq in Hl, H0, H8. now rewrite Hl, H0, H8.
   - reflexivity.
 Qed.
 
 (* as found: the documented set_key(0, 0) dereferences the null pointer *)
 Lemma isap_asfound_refuted klen c_encrypt c_decrypt : 0 < klen ->
-  ~ C17_stmt unit pk klen c_encrypt c_decrypt (keying_isap pk isap_init isap_load AsFound klen) true true
-      (isap_key_of_doc pk isap_init isap_load) eq.
+  ~ C17_stmt unit pk klen c_encrypt c_decrypt (cpp_keying_isap pk isap_init isap_load CodeAsFound klen) true true
+      (cpp_isap_key_of_doc pk isap_init isap_load) eq.
 Proof.
   intros Hpos H.
-  destruct (H CDefault [OSetKey tt None 0] {| dk := Some (DRaw (zeros klen)); dn := Some (zeros 16) |} [RBool true] eq_refl)
+  destruct (H CppDefault [CpSetKey tt None 0] {| cpd_key := Some (CppRawKey (zeros klen)); cpd_nonce := Some (zeros 16) |} [CprBool true] eq_refl)
     as [o [Hr _]].
-  unfold code_run in Hr. cbn in Hr. destruct klen as [|k']; [lia|]. cbn in Hr. discriminate.
+  unfold cpp_code_run in Hr. cbn in Hr. destruct klen as [|k']; [lia|]. cbn in Hr. discriminate.
 Qed.
 (* ... and with a non-null pointer the key becomes the bytes found there *)
 Lemma isap_asfound_setkey0_reads_pointer klen c_encrypt c_decrypt b : 0 < klen -> klen <= length b ->
-  code_run unit pk c_encrypt c_decrypt (keying_isap pk isap_init isap_load AsFound klen) CDefault [OSetKey tt (Some b) 0] =
-  Ok ({| o_key := isap_init (firstn klen b); o_nonce := zeros 16 |}, [RBool true]).
+  cpp_code_run unit pk c_encrypt c_decrypt (cpp_keying_isap pk isap_init isap_load CodeAsFound klen) CppDefault [CpSetKey tt (Some b) 0] =
+  CppOk ({| cpo_key := isap_init (firstn klen b); cpo_nonce := zeros 16 |}, [CprBool true]).
 Proof.
-  intros Hpos Hb. unfold code_run. cbn. destruct klen as [|k']; [lia|]. cbn.
+  intros Hpos Hb. unfold cpp_code_run. cbn. destruct klen as [|k']; [lia|]. cbn.
   destruct (length b <=? k') eqn:E; [apply Nat.leb_le in E; lia|reflexivity].
 Qed.
 
 Lemma isap_status v klen c_encrypt c_decrypt : 0 < klen -> klen <> 80 ->
   match v with
-  | Fixed => keying_ok unit pk klen (keying_isap pk isap_init isap_load v klen) true true (isap_key_of_doc pk isap_init isap_load) eq
-  | AsFound => ~ C17_stmt unit pk klen c_encrypt c_decrypt (keying_isap pk isap_init isap_load v klen) true true
-                   (isap_key_of_doc pk isap_init isap_load) eq
+  | CodeFixed => keying_ok unit pk klen (cpp_keying_isap pk isap_init isap_load v klen) true true (cpp_isap_key_of_doc pk isap_init isap_load) eq
+  | CodeAsFound => ~ C17_stmt unit pk klen c_encrypt c_decrypt (cpp_keying_isap pk isap_init isap_load v klen) true true
+                   (cpp_isap_key_of_doc pk isap_init isap_load) eq
   end.
 Proof. intros H1 H2. destruct v; [now apply isap_asfound_refuted|now apply keying_isap_fixed_ok]. Qed.
 End IsapP.
@@ -447,7 +447,7 @@ Section XofP.
 Variable S : Type.
 Variable c_init : S.
 Variable c_init_fixed : nat -> S.
-Variable c_init_custom : ptr -> bytes -> nat -> S.
+Variable c_init_custom : cpp_ptr -> bytes -> nat -> S.
 Variable c_reinit : S -> S.
 Variable c_reinit_fixed : S -> nat -> S.
 Variable c_absorb : S -> bytes -> S.
@@ -457,12 +457,12 @@ Variable c_copy : S -> S -> S.
 Variable c_free : S -> S.
 Hypothesis squeeze_len : forall s n, length (snd (c_squeeze s n)) = n.
 
-Notation xstep := (xof_step S c_reinit c_reinit_fixed c_absorb c_squeeze c_pad c_copy c_free).
-Notation cexecl := (c_exec_list S c_init c_init_fixed c_init_custom c_reinit c_reinit_fixed c_absorb c_squeeze c_pad c_copy c_free).
+Notation xstep := (cpp_xof_step S c_reinit c_reinit_fixed c_absorb c_squeeze c_pad c_copy c_free).
+Notation cexecl := (cpp_c_exec_list S c_init c_init_fixed c_init_custom c_reinit c_reinit_fixed c_absorb c_squeeze c_pad c_copy c_free).
 
-Lemma xof_member_eq L s x : xstep L s x = cexecl s (calls_of S L x).
+Lemma xof_member_eq L s x : xstep L s x = cexecl s (cpp_calls_of S L x).
 Proof.
-  destruct x as [self other| |d|p|str|n|n|]; cbn [xof_step calls_of].
+  destruct x as [self other| |d|p|str|n|n|]; cbn [cpp_xof_step cpp_calls_of].
   - destruct self; reflexivity.
   - destruct (L =? 0); reflexivity.
   - reflexivity.
@@ -474,7 +474,7 @@ Proof.
   - reflexivity.
 Qed.
 
-Fixpoint xof_steps (L : nat) (s : S) (ops : list (xop S)) : S * bytes :=
+Fixpoint xof_steps (L : nat) (s : S) (ops : list (cpp_xop S)) : S * bytes :=
   match ops with
   | [] => (s, [])
   | x :: ops' => let '(s1, o1) := xstep L s x in let '(s2, o2) := xof_steps L s1 ops' in (s2, o1 ++ o2)
@@ -483,25 +483,25 @@ Fixpoint xof_steps (L : nat) (s : S) (ops : list (xop S)) : S * bytes :=
 Lemma c_exec_list_app s l1 l2 :
   cexecl s (l1 ++ l2) = let '(s1, o1) := cexecl s l1 in let '(s2, o2) := cexecl s1 l2 in (s2, o1 ++ o2).
 Proof.
-  revert s; induction l1 as [|c l1 IH]; intro s; cbn [app c_exec_list].
+  revert s; induction l1 as [|c l1 IH]; intro s; cbn [app cpp_c_exec_list].
   - now destruct (cexecl s l2).
-  - destruct (c_exec S c_init c_init_fixed c_init_custom c_reinit c_reinit_fixed c_absorb c_squeeze c_pad c_copy c_free s c) as [s1 o1].
+  - destruct (cpp_c_exec S c_init c_init_fixed c_init_custom c_reinit c_reinit_fixed c_absorb c_squeeze c_pad c_copy c_free s c) as [s1 o1].
     rewrite IH. destruct (cexecl s1 l1) as [s2 o2]. destruct (cexecl s2 l2) as [s3 o3]. now rewrite app_assoc.
 Qed.
 
-Theorem xof_history_eq L ops : forall s, xof_steps L s ops = cexecl s (flat_map (calls_of S L) ops).
+Theorem xof_history_eq L ops : forall s, xof_steps L s ops = cexecl s (flat_map (cpp_calls_of S L) ops).
 Proof.
   induction ops as [|x ops IH]; intro s; cbn [xof_steps flat_map]; [reflexivity|].
-  rewrite c_exec_list_app. rewrite xof_member_eq. destruct (cexecl s (calls_of S L x)) as [s1 o1]. now rewrite IH.
+  rewrite c_exec_list_app. rewrite xof_member_eq. destruct (cexecl s (cpp_calls_of S L x)) as [s1 o1]. now rewrite IH.
 Qed.
 
 Lemma xof_templates L :
-  xof_ctor S c_init c_init_fixed c_init_custom c_copy L (XDefault S) = (if L =? 0 then c_init else c_init_fixed L) /\
-  xof_ctor S c_init c_init_fixed c_init_custom c_copy 0 (XDefault S) = c_init /\
-  (forall nm cu, xof_ctor S c_init c_init_fixed c_init_custom c_copy L (XCustom S nm cu) = c_init_custom nm cu L) /\
-  (forall junk o, xof_ctor S c_init c_init_fixed c_init_custom c_copy L (XCopy S junk o) = c_copy junk o) /\
-  (forall s, fst (xstep L s (XReset S)) = if L =? 0 then c_reinit s else c_reinit_fixed s L) /\
-  (forall s, fst (xstep 0 s (XReset S)) = c_reinit s).
+  cpp_xof_ctor S c_init c_init_fixed c_init_custom c_copy L (CpxDefault S) = (if L =? 0 then c_init else c_init_fixed L) /\
+  cpp_xof_ctor S c_init c_init_fixed c_init_custom c_copy 0 (CpxDefault S) = c_init /\
+  (forall nm cu, cpp_xof_ctor S c_init c_init_fixed c_init_custom c_copy L (CpxCustom S nm cu) = c_init_custom nm cu L) /\
+  (forall junk o, cpp_xof_ctor S c_init c_init_fixed c_init_custom c_copy L (CpxCopy S junk o) = c_copy junk o) /\
+  (forall s, fst (xstep L s (CpxReset S)) = if L =? 0 then c_reinit s else c_reinit_fixed s L) /\
+  (forall s, fst (xstep 0 s (CpxReset S)) = c_reinit s).
 Proof. repeat split; try reflexivity; intros; cbn; now destruct (L =? 0). Qed.
 End XofP.
 
@@ -517,32 +517,32 @@ Variable h_oneshot : bytes -> bytes.
 Hypothesis finalize_len : forall s, length (snd (h_finalize s)) = 32.
 
 Lemma hash_member_eq s x :
-  hash_step S h_reinit h_update h_finalize h_copy h_free h_oneshot s x =
-  h_exec_list S h_reinit h_update h_finalize h_copy h_free h_oneshot s (hcalls_of S x).
+  cpp_hash_step S h_reinit h_update h_finalize h_copy h_free h_oneshot s x =
+  cpp_h_exec_list S h_reinit h_update h_finalize h_copy h_free h_oneshot s (cpp_hcalls_of S x).
 Proof.
-  destruct x as [self other| |d|p|str| | |d]; cbn [hash_step hcalls_of].
+  destruct x as [self other| |d|p|str| | |d]; cbn [cpp_hash_step cpp_hcalls_of].
   - destruct self; reflexivity.
   - reflexivity.
   - reflexivity.
   - destruct p; reflexivity.
   - reflexivity.
   - cbn. destruct (h_finalize s). now rewrite app_nil_r.
-  - cbn [h_exec_list h_exec]. pose proof (finalize_len s) as Hl. destruct (h_finalize s) as [s' out]. cbn [snd] in Hl.
+  - cbn [cpp_h_exec_list cpp_h_exec]. pose proof (finalize_len s) as Hl. destruct (h_finalize s) as [s' out]. cbn [snd] in Hl.
     rewrite set_at_full by (now rewrite zeros_len). now rewrite app_nil_r.
   - cbn. now rewrite app_nil_r.
 Qed.
 End HashP.
 
 (* ---- helpers ------------------------------------------------------------ *)
-Lemma strlen_app_nul s t : Forall (fun x => x <> 0%N) s -> strlen_b (s ++ 0%N :: t) = length s.
+Lemma strlen_app_nul s t : Forall (fun x => x <> 0%N) s -> cpp_strlen_b (s ++ 0%N :: t) = length s.
 Proof.
-  induction s as [|x s IH]; intro H; cbn [app strlen_b length]; [reflexivity|].
+  induction s as [|x s IH]; intro H; cbn [app cpp_strlen_b length]; [reflexivity|].
   inversion H as [|? ? Hx Hs]; subst. destruct (x =? 0)%N eqn:E; [apply N.eqb_eq in E; contradiction|].
   now rewrite IH.
 Qed.
-Lemma cstring_app_nul s t : Forall (fun x => x <> 0%N) s -> cstring (s ++ 0%N :: t) = s.
+Lemma cstring_app_nul s t : Forall (fun x => x <> 0%N) s -> cpp_cstring (s ++ 0%N :: t) = s.
 Proof.
-  intro H. unfold cstring. rewrite strlen_app_nul by exact H.
+  intro H. unfold cpp_cstring. rewrite strlen_app_nul by exact H.
   rewrite firstn_app, Nat.sub_diag, firstn_all. cbn. apply app_nil_r.
 Qed.
 
@@ -562,7 +562,7 @@ Proof.
 Qed.
 
 Lemma bytes_from_data_eq b len : 0 < len -> len <= length b ->
-  cpp_bytes_from_data (Some b) len = Ok (firstn len b).
+  cpp_bytes_from_data (Some b) len = CppOk (firstn len b).
 Proof.
   intros Hp Hl. unfold cpp_bytes_from_data. destruct (len =? 0) eqn:E; [apply Nat.eqb_eq in E; lia|].
   rewrite rd_some by exact Hl. cbn. f_equal. apply set_at_full. rewrite zeros_len. now apply firstn_len_le.
